@@ -130,6 +130,8 @@ def oracle(c, r):
                 bad.append(("trailing_spurious", "line %d reported as ending in a blank but does not" % n))
             if kind == 0 and mx != mw:
                 bad.append(("overflow_max", "reported maximum %d != max_width %d" % (mx, mw)))
+            if kind == 0 and found not in (width, width - 1):
+                bad.append(("overflow_width", "line %d reported %d columns wide, it is %d wide (a tab = %d columns)" % (n, found, width, ts)))
         if not selected or skipped:
             continue
         offending = (width > mw and eol) or ends_blank
@@ -140,9 +142,9 @@ def oracle(c, r):
                 bad.append(("offending_unreported_plain", "line %d (width %d, ends_blank %s) has no comment/string and is not reported" % (n, width, ends_blank)))
         if ends_blank and not (has_comment or has_string) and not any(k == 1 for k, _, _ in reported):
             bad.append(("trailing_unreported", "line %d ends in a blank, is plain code, and is not reported as such" % n))
-    # a trailing-whitespace report makes the run exit with 1: operational flag (main.rs exit_code)
-    if any(e[1] == 1 for e in r["errors"]) and not r["flags"][0]:
-        bad.append(("trailing_exit", "TrailingWhitespace reported but has_operational_errors is not set"))
+    # a reported line makes the run exit with 1: operational flag (main.rs exit_code)
+    if any(e[1] in (0, 1) for e in r["errors"]) and not r["flags"][0]:
+        bad.append(("diagnostic_exit", "a line is reported (%r) but has_operational_errors is not set: the run would exit 0" % r["errors"][:3]))
     return bad
 
 
@@ -166,6 +168,18 @@ def e2e(rep, tier, seed):
             over = [["max_width", w], ["tab_spaces", ts], ["hard_tabs", ht], ["error_on_line_overflow", "true"], ["error_on_unformatted", "true"]]
             cases.append({"text": p["text"], "config": pool.merged(p["header"], over), "again": False, "lex": False, "entries": True})
             meta.append((p["id"], w, ts, ht))
+    long_line = "    let " + "a" * 120 + " = 1;"
+    synth = {
+        "synth/bad_attr_then_overflow": "#[rustfmt::bogus]\nfn f() {}\nfn main() {\n%s\n}\n" % long_line,
+        "synth/overflow_then_bad_attr": "fn main() {\n%s\n}\n#[rustfmt::bogus]\nfn f() {}\n" % long_line,
+        "synth/deprecated_attr_then_overflow": "#[rustfmt_skip]\nfn  f( ) {}\nfn main() {\n%s\n}\n" % long_line,
+        "synth/two_overflows": "fn main() {\n%s\n%s\n}\n" % (long_line, long_line.replace("a", "b")),
+        "synth/overflow_in_string_and_code": "fn main() {\n    let s = \"%s\";\n%s\n}\n" % ("x" * 120, long_line),
+    }
+    for name, text in synth.items():
+        for (w, ts, ht) in grid:
+            cases.append({"text": text, "config": [["max_width", w], ["tab_spaces", ts], ["hard_tabs", ht], ["error_on_line_overflow", "true"], ["error_on_unformatted", "true"]], "again": False, "lex": False, "entries": True})
+            meta.append((name, w, ts, ht))
     res = common.run_vh_pool("pool", cases, per_case_timeout=15)
     found = n = nerr = 0
     for (pid, w, ts, ht), c, r in zip(meta, cases, res):
